@@ -781,9 +781,9 @@ def key_of(rec):
     return hashlib.sha1((rec["pass"] + rec["before"].text + "\n=>\n" + rec["after"].text).encode()).hexdigest()[:16]
 
 
-COQ_IMPORTS = "From Verif Require Import C14C.CopySem C14C.CopyCheck.\nOpen Scope string_scope.\n"
-MODEL_FILES = ["C14C/CopySem.v", "C14C/CopyCheck.v"]
-PROOF_FILES = ["C14C/CopySound1.v", "C14C/CopySound2.v", "C14C/CopySound3.v", "C14C/CopySound4.v", "C14C/CopySound.v", "C14C/PropsCopy.v"]
+COQ_IMPORTS = "From Verif Require Import C14C.CopySem C14C.CopyCheck C14C.DeadCheck.\nOpen Scope string_scope.\n"
+MODEL_FILES = ["C14C/CopySem.v", "C14C/CopyCheck.v", "C14C/DeadCheck.v"]
+PROOF_FILES = ["C14C/CopySound1.v", "C14C/CopySound2.v", "C14C/CopySound3.v", "C14C/CopySound4.v", "C14C/CopySound.v", "C14C/PropsCopy.v", "C14C/DeadSound.v", "C14C/PropsDead.v"]
 
 
 def evaluate(recs, name="c14c", rounds=8):
@@ -793,9 +793,17 @@ def evaluate(recs, name="c14c", rounds=8):
     exprs = []
     for r in recs:
         C = certificates(r["before"])
+        dead = "1"
+        if r.get("dead_step") is not None:   # the second step g -> h: removal of copies into the allocations D
+            h, D = r["dead_step"]
+            hh = "g" if r.get("dead_only") else f"({h.c_func()})"
+            dead = f"(let h := {hh} in if dead_check C [{'; '.join(str(d) for d in D)}] g h then 1 else 0)"
+        if r.get("dead_only"):
+            exprs.append(f"(let C := {c_certs(C)} in let g := {r['after'].c_func()} in [1; 1; 1; {dead}])")
+            continue
         exprs.append(f"(let C := {c_certs(C)} in let f := {r['before'].c_func()} in let g := {r['after'].c_func()} in "
                      f"let E := infer_entry C f {max(rounds, len(r['before'].blocks) + 1)} in "
-                     f"[if check_func C E f g then 1 else 0; if certs_ok f C then 1 else 0; if check_blocks C E E f g then 1 else 0])")
+                     f"[if check_func C E f g then 1 else 0; if certs_ok f C then 1 else 0; if check_blocks C E E f g then 1 else 0; {dead}])")
     # three coqc processes side by side (largest expressions first, dealt round-robin)
     from concurrent.futures import ThreadPoolExecutor
     order = sorted(range(len(exprs)), key=lambda i: -len(exprs[i]))
@@ -909,8 +917,10 @@ def part_copy_passes(ctx):
         elif r["pass"] == RO:
             # f -> f1 (redirected operands, copies kept; check_func, rule R4) -> f' (dead staging copies removed)
             mid, removed = split_readonly(r)
-            r["pair"] = {"before": r["before"], "after": mid}
-            r["dead"] = dead_copy_check(mid, r["after"], removed)
+            defs_ = r["before"].defs()
+            D = sorted({r["before"].names["alloca"].get(r["before"].root(x[1][2], defs_)[1], -1) for _, _, x in removed if r["before"].root(x[1][2], defs_)[0] == "var"})
+            r["pair"] = {"before": r["before"], "after": mid, "dead_step": (r["after"], D)}
+            r["dead"] = dead_copy_check(mid, r["after"], removed)     # the same conditions in Python: gives the reason
             # the read-only facts this invocation relies on: (callee, parameter) of every redirected operand
             used = set()
             for bi, j, x, y in (changes(r) or []):
@@ -923,8 +933,17 @@ def part_copy_passes(ctx):
                 why = "block structure changed"
         elif r["pass"] == IR:
             r["ir"] = internal_return_check(r)
-            verdict[i] = "accepted" if r["ir"] is None else "rejected"
             r["why"] = {"internal_return_check": r["ir"]}
+            if r["ir"] is not None:
+                verdict[i] = "rejected"
+                continue
+            # verified part: in f' the destination allocations are dead (dead_check f' f': by dead_copy_sound no instruction
+            # of f' can observe them, so leaving them unwritten is invisible)
+            defs_ = r["before"].defs()
+            D = sorted({r["before"].names["alloca"].get(r["before"].root(x[1][2], defs_)[1], -1) for _, _, x, y in (changes(r) or [])
+                        if x[0] == "mcopy" and y[0] == "nop" and r["before"].root(x[1][2], defs_)[0] == "var"})
+            r["pair"] = {"before": r["after"], "after": r["after"], "dead_step": (r["after"], D), "dead_only": True}
+            todo.append(i)
             continue
         if why is None:
             todo.append(i)
@@ -936,9 +955,11 @@ def part_copy_passes(ctx):
             outs = evaluate([recs[i]["pair"] for i in todo])
             for i, o in zip(todo, outs):
                 r = recs[i]
-                ok = o[0] == 1 and not r.get("dead") and not r.get("recheck_bad")
+                ok = o[0] == 1 and o[3] == 1 and not r.get("dead") and not r.get("recheck_bad")
+                if r["pass"] == IR:
+                    ok = o[3] == 1
                 verdict[i] = "accepted" if ok else "rejected"
-                if o[0] != 1 and r["pass"] == RO and not r.get("dead") and not r.get("recheck_bad"):
+                if o[0] != 1 and o[3] == 1 and r["pass"] == RO and not r.get("dead") and not r.get("recheck_bad"):
                     # domain limit of the certificates: the source of a staging copy is a phi of pointers into different
                     # allocations (or a multiply defined variable): no region is known for it
                     C = certificates(r["before"])
@@ -949,12 +970,13 @@ def part_copy_passes(ctx):
                         why = "source of the staging copy has no pointer certificate (phi of different allocations)"
                         verdict[i] = "unsupported"
                         stats["unsupported_reasons"][why] = stats["unsupported_reasons"].get(why, 0) + 1
-                r["why"] = {"check_func": o[0], "certs_ok": o[1], "blocks_ok": o[2], "dead_copy_check": r.get("dead"),
+                r["why"] = {"check_func": o[0], "certs_ok": o[1], "blocks_ok": o[2], "dead_check": o[3], "dead_copy_check": r.get("dead"),
                             "readonly_recheck_failures": {f"{k[0]}#{k[1]}": v for k, v in r.get("recheck_bad", {}).items()}}
         except RuntimeError as e:
             ctx.violation("correspondence-broken", "check_func could not be evaluated on the exported invocations", {"error": str(e)[-1500:]})
     stats["validated_by"] = {"MemoryCopyElisionPass": "check_func (copyfwd_check_sound)", RO: "check_func rule R4 (copyfwd_check_sound under ro_uniform) + "
-                             "dead_copy_check + readonly_recheck (syntactic, unverified)", IR: "internal_return_check (syntactic, unverified)"}
+                             "dead_check (dead_copy_sound under oracle_local) + readonly_recheck (syntactic, unverified)", IR: "internal_return_check (syntactic, unverified) + dead_check f' f' on the destination allocations "
+                             "(dead_copy_sound: unobservable in f')"}
     stats["readonly_facts_rechecked"] = sum(r.get("recheck_used", 0) for r in recs)
     t2 = time.time()
     entries = {c["name"]: c for c in progs}
